@@ -42,7 +42,21 @@ fn run_scenario(out: &mut Out, scn: &Value, tag: usize) {
             txt.push_str(&format!("{},{:.6},{:.6}\n", i, deg(&c["x"]), deg(&c["y"])));
         }
         std::fs::write(&path, txt).unwrap();
-        let plugin = RTreePlugin::new(&path, tol, unit).map_err(|e| e.to_string()).unwrap();
+        // every other plugin is built from a configuration object by the application's builder
+        let via_builder = tag % 2 == 0;
+        let plugin: std::sync::Arc<dyn InputPlugin> = if via_builder {
+            use routee_compass::app::compass::config::builders::InputPluginBuilder;
+            let mut cfg = json!({"type": "vertex_rtree", "vertices_input_file": path.to_str().unwrap()});
+            if let Some(t) = tol {
+                cfg["distance_tolerance"] = json!(t.as_f64());
+            }
+            if unit.is_some() {
+                cfg["distance_unit"] = scn["tol"]["unit"].clone();
+            }
+            routee_compass::plugin::input::default::vertex_rtree::builder::VertexRTreeBuilder {}.build(&cfg).map_err(|e| e.to_string()).unwrap()
+        } else {
+            std::sync::Arc::new(RTreePlugin::new(&path, tol, unit).map_err(|e| e.to_string()).unwrap())
+        };
         res = plugin.process(&mut query).map_err(|e| e.to_string()).map(|_| query["origin_vertex"].as_i64().unwrap_or(-1) + 1);
     } else {
         let gpath = dir.join(format!("mm-geoms-{}.txt", tag));
@@ -88,16 +102,32 @@ fn run_scenario(out: &mut Out, scn: &Value, tag: usize) {
             query["vehicle_parameters"] = json!({"height": v["height"], "width": v["width"], "total_length": v["total_length"],
                 "trailer_length": v["trailer_length"], "total_weight": v["total_weight"], "number_of_axles": v["number_of_axles"]});
         }
-        let plugin = EdgeRtreeInputPlugin::new(
-            Some(cpath.to_str().unwrap().to_string()),
-            Some(rpath.to_str().unwrap().to_string()),
-            gpath.to_str().unwrap().to_string(),
-            tol,
-            unit,
-            RoadClassParser::default(),
-        )
-        .map_err(|e| e.to_string())
-        .unwrap();
+        let via_builder = tag % 2 == 0;
+        let plugin: std::sync::Arc<dyn InputPlugin> = if via_builder {
+            use routee_compass::app::compass::config::builders::InputPluginBuilder;
+            let mut cfg = json!({"type": "edge_rtree", "geometry_input_file": gpath.to_str().unwrap(), "road_class_input_file": cpath.to_str().unwrap(),
+                                 "vehicle_restriction_input_file": rpath.to_str().unwrap()});
+            if let Some(t) = tol {
+                cfg["distance_tolerance"] = json!(t.as_f64());
+            }
+            if unit.is_some() {
+                cfg["distance_unit"] = scn["tol"]["unit"].clone();
+            }
+            routee_compass::plugin::input::default::edge_rtree::edge_rtree_input_plugin_builder::EdgeRtreeInputPluginBuilder {}.build(&cfg).map_err(|e| e.to_string()).unwrap()
+        } else {
+            std::sync::Arc::new(
+                EdgeRtreeInputPlugin::new(
+                    Some(cpath.to_str().unwrap().to_string()),
+                    Some(rpath.to_str().unwrap().to_string()),
+                    gpath.to_str().unwrap().to_string(),
+                    tol,
+                    unit,
+                    RoadClassParser::default(),
+                )
+                .map_err(|e| e.to_string())
+                .unwrap(),
+            )
+        };
         res = plugin.process(&mut query).map_err(|e| e.to_string()).map(|_| query["origin_edge"].as_i64().unwrap_or(-1) + 1);
     }
     let unchanged = query["keep_me"] == json!({"a": [1, 2, 3]}) && query["name"] == json!("q")
